@@ -2,16 +2,18 @@
 # re-applies every kept seeded change (seeded/<name>/patch.diff) to /repo, runs the check of its property, undoes it, and
 # records whether the check raised the alarm.  /repo must be clean; it is left clean.  Usage: tools/seedall.sh [name ...]
 cd "$(dirname "$0")/.." || exit 2
-[ -n "$(git -C /repo status --porcelain)" ] && { echo "/repo not clean"; exit 2; }
+REPO=${VERIF_REPO:-/repo}      # a scratch copy of the repository may be named (vp run --with-repo: VERIF_REPO=$VP_RUN_REPO)
+export VERIF_REPO="$REPO"
+[ -n "$(git -C "$REPO" status --porcelain)" ] && { echo "$REPO not clean"; exit 2; }
 names=${*:-$(ls seeded)}
 missed=0
 for n in $names; do
   d=seeded/$n
   [ -f "$d/patch.diff" ] || continue
   id=$(echo "$n" | cut -c1-3)
-  git -C /repo apply "$PWD/$d/patch.diff" || { echo "$n: patch does not apply"; missed=1; continue; }
+  git -C "$REPO" apply "$PWD/$d/patch.diff" || { echo "$n: patch does not apply"; missed=1; continue; }
   timeout 1500 ./check "$id" > "$d/check_output.txt" 2>&1; rc=$?
-  git -C /repo checkout -- .
+  git -C "$REPO" checkout -- .
   rp=$(grep -m1 "^VIOLATION property=$id " "$d/check_output.txt" | sed 's/.*replay=\([^ ]*\).*/\1/')
   [ -n "$rp" ] && [ -f "$rp" ] && cp "$rp" "$d/replay.json"
   kind=$(grep -q "no-failing-input-found" "$d/check_output.txt" && echo "no-failing-input-found" || echo "failing-input")
